@@ -39,7 +39,14 @@ def main():
         if src.count(m["old"]) < 1:
             print("SKIP  %-40s anchor text not found" % m["id"]); continue
         open(path, "w").write(src.replace(m["old"], m["new"]) if m.get("replace_all") else src.replace(m["old"], m["new"], 1))
+        saved = []
+        for ex in m.get("extra", []):
+            xp = os.path.join(SCR, ex["file"]); xs = open(xp).read(); saved.append((xp, xs if xp != path else None))
+            cur = open(xp).read()
+            open(xp, "w").write(cur.replace(ex["old"], ex["new"], 1))
         r = sh("%s/bin/origamilint -prop %s -tier %s -repo %s -verif %s" % (ROOT, m["prop"], m.get("tier", "quick"), SCR, vtmp))
+        for xp, xs in saved:
+            if xs is not None: open(xp, "w").write(xs)
         open(path, "w").write(src)
         out = r.stdout + r.stderr
         fired = [l for l in out.splitlines() if "rule=" in l and "KNOWN-FINDING" not in l and "NOTE" not in l]
